@@ -76,6 +76,9 @@ NOARG = ('beam.plasma', 'laser.plasma', 'laser.laser_profile(same-object)', 'las
          'beam.attenuator(same-object)', 'plasma.atomic_data(same-object)')
 
 
+ALWAYS_PAIRED = NOARG + ('beam.plasma(switch)', 'laser.plasma(switch)')
+
+
 def _other(rng, pool, cur):
     c = [p for p in pool if p != cur]
     return copy.deepcopy(rng.choice(c))
@@ -460,7 +463,9 @@ def search(ctx, S, M):
         for b in singles:
             if a[0] == b[0]:
                 continue
-            if ctx.tier == 'quick' and ctx.rng.random() > 0.25:
+            # re-assignments of the object already installed and plasma switches silently drop or keep subscriptions:
+            # what follows (or precedes) them is always enumerated; the other ordered pairs are sampled at quick
+            if ctx.tier == 'quick' and not (a[0] in ALWAYS_PAIRED or b[0] in ALWAYS_PAIRED) and ctx.rng.random() > 0.25:
                 continue
             cfg = copy.deepcopy(BASE)
             M[a[0]][2](cfg, copy.deepcopy(a[1]))
